@@ -68,8 +68,10 @@ def run_symx(req):
     kwargs = req.get("kwargs") or {}
     budget = req.get("timeout", 300)
 
+    call_kwargs = {k: v for k, v in kwargs.items() if not k.startswith("_")}
+
     def harness(sp):
-        return fn(sp, **kwargs)
+        return fn(sp, **call_kwargs)
 
     cov = FnCoverage()
     cov.start()
